@@ -408,6 +408,10 @@ def check(prog, rep):
     url_keys(prog, rep)
     category_choice(prog, rep)
     rule_match(prog, rep)
+    # nothing on the way is memoised on a key that does not determine the answer
+    from ..rules_own import memo_rule
+
+    memo_rule(prog, rep, rule="MEMO")
 
 
 VARIANTS = [
